@@ -42,6 +42,8 @@ def run(ctx):
     ctx.add("traces_validated_against_impl", res["cases"])
     for s in res.get("samples", []):
         ctx.sample(s)
+    if ctx.tier == "thorough":
+        vlib.vacuity_check(ctx, "MC_Resolver.tla", "MC_Resolver_c11_quick_chain.cfg", expect_zero=())
     return vlib.finish(
         ctx, "model_checking",
         rule="TLC enumerates every book (3 recipes x <= 2 ingredients, cycles included) x limits 1..4 x every visiting order, and the "
